@@ -362,6 +362,17 @@ def transform_cases():
     cases.append(("sheared", geom.sim_matrix(R @ sh, t, 1.0), False))
     cases.append(("one axis scaled", geom.sim_matrix(
         R @ np.diag([1, 1, 1.5]), t, 1.0), False))
+    # ... and the same defects at a small overall scale (entries ~1e-4: far
+    # below any absolute tolerance, still no scaled rotation)
+    for sc in (1e-4, 1e-2):
+        cases.append(("valid s=%g" % sc, geom.sim_matrix(R, t, sc), True))
+        cases.append(("sheared at scale %g" % sc,
+                      geom.sim_matrix(R @ sh, t, sc), False))
+        cases.append(("one axis scaled at scale %g" % sc, geom.sim_matrix(
+            R @ np.diag([1, 1, 1.5]), t, sc), False))
+        cases.append(("arbitrary block at scale %g" % sc, geom.sim_matrix(
+            np.array([[1.0, 0.4, 0.0], [0.0, 1.0, 0.7], [0.3, 0.0, 1.0]]), t,
+            sc), False))
     M = geom.sim_matrix(R, t, 1.0)
     M2 = M.copy()
     M2[3] = [0, 0, 0, 2.0]
